@@ -398,9 +398,13 @@ pub struct StorageMap<K, V> { _p: core::marker::PhantomData<(K, V)> }
 #[verifier::external_body]
 #[verifier::reject_recursive_types(T)]
 pub struct UnboundedBuffer<T> { _p: core::marker::PhantomData<T> }
-impl<T> UnboundedBuffer<T> {
+/// event: the owner removed the entry of k itself (a `Removed(k)` message was taken from the write buffer)
+pub uninterp spec fn removed_msg_ev<K>(k: K) -> bool;
+impl<K> UnboundedBuffer<WriteMessage<K>> {
     #[verifier::external_body]
-    pub fn pop(&self) -> Option<T> { unimplemented!() }
+    pub fn pop(&self) -> (r: Option<WriteMessage<K>>)
+        ensures r matches Some(WriteMessage::Removed(k)) ==> removed_msg_ev(k)
+    { unimplemented!() }
 }
 #[verifier::external_body]
 #[verifier::reject_recursive_types(T)]
@@ -456,6 +460,12 @@ impl<K, V> StorageMap<K, V> {
     { unimplemented!() }
     #[verifier::external_body]
     pub fn contains_sync(&self, key: &K) -> bool { unimplemented!() }
+    /// scc::HashMap::read_sync / remove_sync: NOT tied to a locked entry handle -- whatever they report or remove says nothing
+    /// about the value a later / earlier call saw (other threads run in between), so they establish none of the events above
+    #[verifier::external_body]
+    pub fn read_sync<R, F: FnOnce(&K, &V) -> R>(&self, key: &K, reader: F) -> Option<R> { unimplemented!() }
+    #[verifier::external_body]
+    pub fn remove_sync(&self, key: &K) -> Option<(K, V)> { unimplemented!() }
     #[verifier::external_body]
     pub fn len(&self) -> usize { unimplemented!() }
 }
@@ -467,6 +477,11 @@ impl<K, V, L: LifecycleListener<K, V>> TinyLFUInner<K, V, L> {
 
     pub open spec fn forgets_only_released(&self, old_p: &Policy<K>, new_p: &Policy<K>) -> bool {
         forall|k: K| #![trigger new_p.lru.tracks(k)] old_p.lru.tracks(k) && !new_p.lru.tracks(k) ==> self.owner_answers(k, true)
+    }
+    /// over a whole maintenance pass: a key the policy stops tracking was given up by the owner under the entry lock
+    /// (owner_answers(k, true)) or removed by the owner itself (a Removed message)
+    pub open spec fn forgets_only_released_or_removed(&self, old_p: &Policy<K>, new_p: &Policy<K>) -> bool {
+        forall|k: K| #![trigger new_p.lru.tracks(k)] old_p.lru.tracks(k) && !new_p.lru.tracks(k) ==> (self.owner_answers(k, true) || removed_msg_ev(k))
     }
     pub open spec fn parks_only_pinned(&self, old_p: &Policy<K>, new_p: &Policy<K>) -> bool {
         forall|k: K| #![trigger new_p.lru.seq(Region::Pinned).contains(k)]
@@ -516,11 +531,18 @@ impl<K, V, L: LifecycleListener<K, V>> TinyLFUInner<K, V, L> {
         ensures final(lock).inv(), final(lock).caps_same(old(lock)),
             // nothing is parked that the owner did not refuse to give up during this maintenance pass
             self.parks_only_pinned(old(lock), final(lock)),
+            // NEVER EVICTS A PINNED ENTRY, over the whole pass (also the Poll-mode trim at its end): whatever the policy forgets
+            // was given up by the owner under the entry lock, or removed by the owner itself
+            self.forgets_only_released_or_removed(old(lock), final(lock)),
 //@ loop 0 inv
             invariant lock.inv(), lock.caps_same(old(lock)), self.parks_only_pinned(old(lock), lock),
+                self.forgets_only_released_or_removed(old(lock), lock),
+//@ loop 0 head
+            let ghost mid = *lock;
 //@ loop 1 iter __it
 //@ loop 1 inv
             invariant lock.inv(), lock.caps_same(old(lock)), self.parks_only_pinned(old(lock), lock),
+                self.forgets_only_released_or_removed(old(lock), lock),
 //@ member process_write
 //@ sig
         requires old(lock).inv()
